@@ -152,6 +152,8 @@ def main_check(pid, tier, seed, replay=None):
     if replay:
         payload = json.load(open(replay))
         cases = payload.get("cases") or ([payload["case"]] if payload.get("case") is not None else [])
+        if hasattr(mod, "translate"):
+            safe(mod.translate)          # the model driver is rebuilt from the current source's fragments
         ok_b, log = leanio.lake_build([leanio.exe_target(pid)])
         res = Result()
         run_cases(mod, cases, res)
@@ -163,6 +165,12 @@ def main_check(pid, tier, seed, replay=None):
             return 1
         print("replay:", "still fails" if bad else "passes")
         return 1 if bad else 0
+
+    # stale replay files of earlier runs of this property/seed are removed (numbering restarts at 0)
+    if os.path.isdir(REPLAYS):
+        for fn in os.listdir(REPLAYS):
+            if fn.startswith(f"{pid}-{seed}-"):
+                os.remove(os.path.join(REPLAYS, fn))
 
     # ---- 1. translated fragments -------------------------------------------------------------
     sites = []
@@ -244,7 +252,8 @@ def main_check(pid, tier, seed, replay=None):
             res.findings.append((e["witness"], f))
 
     # ---- 5. if something broke: extra failing-input search -------------------------------------
-    if (broken or res.mismatches) and hasattr(mod, "search_on_break"):
+    unexplained_now = [m for m in res.mismatches if not (m[4] and all(f["key"] in open_keys for f in m[4]))]
+    if (broken or unexplained_now) and hasattr(mod, "search_on_break"):
         extra, err = safe(lambda: list(mod.search_on_break(rng, broken, res.mismatches)))
         if extra:
             r2 = Result()
